@@ -30,6 +30,7 @@ func newExec(p *Program, mode string) *Exec {
 		constSliceArr: map[string]*Term{}, usedExterns: map[string]bool{}, boxes: map[int]*Value{},
 	}
 	ex.allocBases = map[int]bool{}
+	ex.discoverFresh = map[int]bool{}
 	if !ex.L.bv {
 		ex.allocBase = tb.Const("allocBase", SInt)
 		ex.allocBases[ex.allocBase.id] = true
